@@ -51,6 +51,7 @@ type Scenario struct {
 	Fsz     int     `json:"fsz"`
 	Emb     bool    `json:"emb"`
 	Cache   int     `json:"cache"`   // VLogCacheSize (0 = default; >0: direct checks only)
+	MaxConc int     `json:"maxconc"` // MaxConcurrency (0 = the harness default 8); a stalled committer holds one slot
 	Writers int     `json:"writers"` // race mode
 	Txs     [][]KV  `json:"txs"`     // tx id = index+1; an empty list is a metadata-only tx
 	Plan    []Act   `json:"plan"`
@@ -120,6 +121,9 @@ func storeOpts(s *Scenario, ev *evLog) *store.Options {
 	o := smallOpts().
 		WithMaxIOConcurrency(s.MaxIO).WithEmbeddedValues(s.Emb).
 		WithVLogCacheSize(s.Cache)
+	if s.MaxConc > 0 {
+		o = o.WithMaxConcurrency(s.MaxConc)
+	}
 	fsz := s.Fsz
 	emb := s.Emb
 	if ev != nil {
@@ -180,6 +184,7 @@ type world struct {
 	direct      []string
 	inv         int // placement inversions observed
 	hookSeen    bool
+	maxAhead    uint64 // largest distance between a launched committer and the next id to commit
 	lastPartial uint64
 	modelled    bool // false: direct checks only (value cache on)
 }
@@ -230,6 +235,9 @@ func (w *world) launch(id uint64, abort bool) error {
 		exp[4+8+5] ^= 0x40
 		w.abortW++
 		wr = 1000 + w.abortW
+	}
+	if !abort && id >= w.nextID && id-w.nextID > w.maxAhead {
+		w.maxAhead = id - w.nextID
 	}
 	before := w.ev.count()
 	ch := make(chan error, 1)
@@ -904,6 +912,9 @@ func (w *world) emit(bucketPrefix string) {
 		}
 	}
 	bucket := fmt.Sprintf("%s/io%d/emb=%v/fsz<=%d/inv=%v/racy=%v", bucketPrefix, scn.MaxIO, scn.Emb, fszBucket(scn.Fsz), w.inv > 0, racy)
+	if scn.MaxConc > 0 {
+		bucket += fmt.Sprintf("/conc%d/ahead>conc=%v", scn.MaxConc, w.maxAhead > uint64(scn.MaxConc))
+	}
 	js := map[string]any{"scn": scn, "direct": w.direct, "maxcut": w.maxCut, "quiescent": w.quiescent,
 		"inversions": w.inv, "hook": w.hookSeen, "obs": strings.Join(w.obs, "; ")}
 	if !w.modelled {
